@@ -45,7 +45,7 @@ Proof.
 Qed.
 
 Lemma exec_put : forall d e w,
-  exec_all d [SeekEnd Iod; SeekEnd Fod; Write Iod e; Write Fod w] =
+  exec_all d [SeekEnd Iod; SeekEnd Fod; Write Fod w; Write Iod e] =
   {| d_idx := d_idx d ++ e; d_dat := d_dat d ++ w |}.
 Proof.
   intros d e w. unfold exec_all. cbn [fold_left exec_sys fst d_idx d_dat].
